@@ -19,7 +19,11 @@ SumOver(S, F(_)) == LET G[T \in SUBSET S] == IF T = {} THEN 0
                                              ELSE LET x == CHOOSE x \in T : TRUE IN F(x) + G[T \ {x}]
                     IN G[S]
 \* sum of f(i) for i in 1..n without building subsets (n may be hundreds)
-SumTo(n, F(_)) == LET G[i \in 0..n] == IF i = 0 THEN 0 ELSE G[i-1] + F(i) IN G[n]
+\* by halving: recursion depth log n
+SumTo(n, F(_)) == LET RECURSIVE SR(_, _)
+                      SR(lo, hi) == IF lo > hi THEN 0 ELSE IF lo = hi THEN F(lo)
+                                    ELSE LET mid == (lo + hi) \div 2 IN SR(lo, mid) + SR(mid + 1, hi)
+                  IN SR(1, n)
 
 NRes(p) == IF Len(p.chips) = 0 THEN 0 ELSE Len(p.chips[1][3])
 ChipOf(c) == <<c[1], c[2]>>
